@@ -10,6 +10,7 @@ package main
 // and reported, never called "discharged".
 
 import (
+	"os"
 	"fmt"
 	"go/constant"
 	"go/token"
@@ -119,6 +120,8 @@ type Interp struct {
 	absOf    map[int]*fterm
 	atomFn   map[int]string
 	atomArgs map[int][2]int
+	NonNeg   map[int]bool // atoms known to be >= 0 (answers of distance oracles)
+	Positive map[int]bool // atoms taken to be > 0 (a stated restriction of the rule that sets them)
 	inputLen   int
 }
 
@@ -519,6 +522,12 @@ func (it *Interp) truncate(s *State, why string) {
 	it.Truncated++
 	it.TruncWhy[why]++
 	s.done = true
+	if os.Getenv("ORBCHECK_TRUNC") != "" && it.Terms {
+		fmt.Printf("TRUNCATED (%s) in %s\n", why, s.top().fn.Name())
+		for _, t := range s.trail {
+			fmt.Printf("   %s %s\n", t.Pos, t.Desc)
+		}
+	}
 }
 
 // Run explores every path from the given initial state.
@@ -638,6 +647,11 @@ func (it *Interp) factOf(fr *Frame, cond ssa.Value, taken bool) *floatFact {
 	if !it.Terms {
 		return nil
 	}
+	if b, ok := it.val(fr, cond).(BoolV); ok && b.Src != nil {
+		f := *b.Src
+		f.Taken = taken != b.Neg
+		return &f
+	}
 	bo, ok := cond.(*ssa.BinOp)
 	if !ok {
 		return nil
@@ -720,6 +734,14 @@ func (it *Interp) exec(s *State, fr *Frame, in ssa.Instruction) {
 			c = BoolV{T: true, F: true, Opq: true}
 		}
 		if c.T && c.F {
+			if it.Terms && os.Getenv("ORBCHECK_TRUNC") == "2" {
+				if bo, ok := x.Cond.(*ssa.BinOp); ok {
+					a, b := it.val(fr, bo.X), it.val(fr, bo.Y)
+					fa, _ := a.(FloatV)
+					fb, _ := b.(FloatV)
+					fmt.Printf("FORK %s: %s %s %s | %v | %v\n", it.p.InstrPos(x), avString(a), bo.Op, avString(b), it.termOf(fa), it.termOf(fb))
+				}
+			}
 			// partition the path
 			o := s.clone()
 			ofr := o.top()
@@ -1057,7 +1079,7 @@ func (it *Interp) unop(s *State, fr *Frame, x *ssa.UnOp) AV {
 		return it.load(s, x, a, x.Type())
 	case token.NOT:
 		if b, ok := a.(BoolV); ok {
-			return BoolV{T: b.F, F: b.T, Opq: b.Opq, Der: b.Der}
+			return BoolV{T: b.F, F: b.T, Opq: b.Opq, Der: b.Der, Src: b.Src, Neg: !b.Neg}
 		}
 	case token.SUB:
 		switch n := a.(type) {
@@ -1254,7 +1276,15 @@ func (it *Interp) binop(s *State, fr *Frame, x *ssa.BinOp, a, b AV) AV {
 		if r, ok := infCompare(x.Op, av, bv); ok {
 			return r
 		}
-		if it.Terms && (av.Known != bv.Known) {
+		isCmp := x.Op == token.EQL || x.Op == token.NEQ || x.Op == token.LSS || x.Op == token.LEQ || x.Op == token.GTR || x.Op == token.GEQ
+		if it.Terms && isCmp && !(av.Known && bv.Known) {
+			if ta, tb := it.termOf(av), it.termOf(bv); ta != nil && tb != nil && (av.Term != nil || bv.Term != nil || it.NonNeg != nil) {
+				if r, ok := it.termCompare(x.Op.String(), ta, tb); ok {
+					return boolOf(r)
+				}
+			}
+		}
+		if it.Terms && isCmp && (av.Known != bv.Known) {
 			// a square against a non-positive constant
 			k, sq, op := av, bv, x.Op
 			if bv.Known {
@@ -1275,7 +1305,7 @@ func (it *Interp) binop(s *State, fr *Frame, x *ssa.BinOp, a, b AV) AV {
 				}
 			}
 		}
-		if it.Terms && !av.Known && !bv.Known && av.Finite && bv.Finite {
+		if it.Terms && isCmp && !av.Known && !bv.Known && av.Finite && bv.Finite {
 			// the same finite unknown on both sides
 			if ia, ok1 := atomOf(it.termOf(av)); ok1 {
 				if ib, ok2 := atomOf(it.termOf(bv)); ok2 && ia == ib {
@@ -1297,7 +1327,13 @@ func (it *Interp) binop(s *State, fr *Frame, x *ssa.BinOp, a, b AV) AV {
 			// (its interval is tracked); two computed values may be correlated
 			indep := func(f FloatV) bool { return f.Known || f.Sym > 0 && f.Input }
 			der := !(indep(av) && indep(bv)) && !(av.Known && bv.Sym > 0) && !(bv.Known && av.Sym > 0)
-			return BoolV{T: true, F: true, Opq: opq, Der: der}
+			r := BoolV{T: true, F: true, Opq: opq, Der: der}
+			if it.Terms {
+				if ta, tb := it.termOf(av), it.termOf(bv); ta != nil && tb != nil {
+					r.Src = &floatFact{Op: x.Op.String(), A: ta, B: tb}
+				}
+			}
+			return r
 		case token.ADD, token.SUB, token.MUL:
 			// assumption: arithmetic on finite inputs neither overflows nor yields NaN
 			fin := func(f FloatV) bool { return f.Finite || f.Known && !math.IsInf(f.V, 0) && !math.IsNaN(f.V) }
@@ -1319,6 +1355,9 @@ func (it *Interp) binop(s *State, fr *Frame, x *ssa.BinOp, a, b AV) AV {
 		r := FloatV{Opq: opq, Sym: it.nextSym}
 		if x.Op == token.QUO {
 			if ta, tb := it.termOf(av), it.termOf(bv); ta != nil && tb != nil {
+				if bv.Known && bv.V == 0 && it.polySign(ta.N) == 2 && it.polySign(ta.D) == 2 {
+					return FloatV{Known: true, V: math.Inf(1)} // a positive value over zero
+				}
 				r.Term = termDiv(ta, tb)
 			}
 		}
@@ -1399,10 +1438,27 @@ func (it *Interp) binop(s *State, fr *Frame, x *ssa.BinOp, a, b AV) AV {
 				r = boolOf(eq)
 			} else {
 				r = BoolV{T: true, F: true, Opq: opq}
+				if it.Terms {
+					if pa, ok1 := a.(ArrV); ok1 {
+						if pb, ok2 := b.(ArrV); ok2 && len(pa.Elems) == len(pb.Elems) && len(pa.Elems) > 0 {
+							all := true
+							for i := range pa.Elems {
+								fa, ok1 := pa.Elems[i].(FloatV)
+								fb, ok2 := pb.Elems[i].(FloatV)
+								if !ok1 || !ok2 || it.termOf(fa) == nil || it.termOf(fb) == nil {
+									all = false
+								}
+							}
+							if all {
+								r.Src = &floatFact{Op: "==", PA: identString(pa), PB: identString(pb)}
+							}
+						}
+					}
+				}
 			}
 		}
 		if x.Op == token.NEQ {
-			r = BoolV{T: r.F, F: r.T, Opq: r.Opq}
+			r = BoolV{T: r.F, F: r.T, Opq: r.Opq, Src: r.Src, Neg: !r.Neg}
 		}
 		return r
 	}
